@@ -2,7 +2,7 @@
 
 import os
 import json
-from datetime import datetime, timezone
+from datetime import datetime, timedelta, timezone
 
 from tel2puml.tel2puml_types import PVEvent, OtelSpan
 from tel2puml.pv_event_simulator import (
@@ -23,10 +23,14 @@ def convert_timestamp_to_unix_nano(iso_timestamp: str) -> int:
     dt = datetime.fromisoformat(iso_timestamp.rstrip("Z")).replace(
         tzinfo=timezone.utc
     )
-    # Convert the datetime object to a Unix timestamp in seconds
-    unix_timestamp = dt.timestamp()
-    # Convert the Unix timestamp to nanoseconds
-    unix_nano = int(unix_timestamp * 1e9 + dt.microsecond * 1e3)
+    # Count the whole microseconds since the Unix epoch with integer
+    # arithmetic: dt.timestamp() already contains the microseconds (adding
+    # dt.microsecond again doubled them) and a float of seconds cannot hold
+    # nanosecond precision for present-day dates
+    epoch = datetime(1970, 1, 1, tzinfo=timezone.utc)
+    unix_micro = (dt - epoch) // timedelta(microseconds=1)
+    # Convert the microseconds to nanoseconds
+    unix_nano = unix_micro * 1000
     return unix_nano
 
 
